@@ -36,7 +36,27 @@ def forward_cost(S, h, Ls, p, ds):
 	"""Independent top-down evaluation: echelon inventory IN_N = S_N - D_N, IN_j = min(S_j, IN_{j+1}) - D_j;
 	cost = sum_j h_j E[IN_j] + (p + sum h) E[IN_1^-]. Stages 1..N (1 downstream); pmfs as dicts on integers."""
 	N = len(S)
+	def one_period():
+		# finite-support sources: the one-period pmf straight from the attributes the user gave (whatever the order of the list)
+		if ds.type == 'UD':
+			return {d: 1.0 / (ds.hi - ds.lo + 1) for d in range(int(ds.lo), int(ds.hi) + 1)}
+		if ds.type == 'CD':
+			out = {}
+			for v, q in zip(ds.demand_list, ds.probabilities):
+				out[int(v)] = out.get(int(v), 0.0) + float(q)
+			return out
+		return None
 	def ltd_pmf(L):
+		p1 = one_period()
+		if p1 is not None:
+			cur = {0: 1.0}
+			for _ in range(int(L)):
+				nxt = {}
+				for a_, qa in cur.items():
+					for b_, qb in p1.items():
+						nxt[a_ + b_] = nxt.get(a_ + b_, 0.0) + qa * qb
+				cur = nxt
+			return cur
 		dist = ds.lead_time_demand_distribution(L)
 		hi = int(dist.ppf(1 - 1e-13)) + 2 if dist.b == float('inf') else int(dist.interval(1)[1])
 		lo = int(max(dist.interval(1)[0], 0)) if dist.a != float('-inf') else 0
@@ -68,6 +88,7 @@ CORPUS_DISCRETE = [
 	 'cands': [[12, 20], [12, 14], [6, 10]]},
 	{'N': 3, 'h': [3, 2, 1], 'Ls': [1, 2, 1], 'p': 30, 'kind': 'CD', 'vals': [4, 5, 6, 7], 'probs': [0.2, 0.4, 0.3, 0.1],
 	 'cands': [[6, 12, 15], [6, 9, 10], [3, 4, 5]]},
+	{'N': 2, 'h': [1, 2], 'Ls': [1, 2], 'p': 9, 'kind': 'CD', 'vals': [6, 0, 9, 2], 'probs': [0.1, 0.5, 0.1, 0.3]},      # a demand list in no particular order
 ]
 CORPUS_NORMAL = [
 	{'N': 1, 'h': [1], 'Ls': [2], 'p': 10, 'mean': 20, 'sd': 1},      # same mean and lead time, different spread, in one process (a cache keyed without the spread)
